@@ -39,7 +39,8 @@ def registerReq (r : Req) : Option String := do
   let p : Params := {
     partyId := none, opcert := if hasOc == 1 then some 0 else none, vk,
     kesSig := if hasSig == 1 then some 0 else none, kesEvolutions := evol, claimedStake := 0 }
-  let sdF := fun q => (sd.find? (·.1 == q)).map (·.2)
+  -- `HashMap::from_iter(stake_dist.to_vec())` (key_certification.rs:393): on a repeated party id the LAST pair wins
+  let sdF := fun q => (sd.reverse.find? (·.1 == q)).map (·.2)
   pure (match register P sdF registered p with
     | .ok (pid, st) => s!"ok {pid} {st}"
     | .error e => "err " ++ showErr e)
